@@ -69,6 +69,7 @@ pub fn run_case(case: &Case) -> Run {
   let case2 = case.clone();
   let w: W = Arc::new(Mutex::new(World {
     cur: 0,
+    in_cur: 0,
     log: vec![],
     regs: vec![vec![]; 4],
     inner: vec![],
@@ -117,7 +118,11 @@ pub fn run_case(case: &Case) -> Run {
         v
       };
       for (si, stim) in case2.stims.iter().enumerate() {
-        w.lock().unwrap().cur = si;
+        {
+          let mut g = w.lock().unwrap();
+          g.cur = si;
+          g.in_cur = 0;
+        }
         *reached2.lock().unwrap() = si;
         let st = &stim.st;
         match st.k.as_str() {
